@@ -262,7 +262,7 @@ class AdnlWorld(HistoryWorld):
                     k += 1
                 elif r < 0.6:
                     st.queue.append({'op': 'derive', 'i': rng.randrange(k), 'fresh': bool(ctx.cfg.get('fresh')) and rng.random() < 0.5,
-                                     'via': rng.choice(['wallet', 'wallet', 'private'])})
+                                     'via': rng.choice(['wallet', 'wallet', 'private']), 'then': rng.getrandbits(14) if rng.random() < 0.5 else None})
                 elif r < 0.7:
                     st.queue.append({'op': 'seed', 'i': rng.randrange(k), 'salt': rng.choice(['TON default seed', 'TON HD Keys seed', 'TON fast seed version', 'salt-%d' % rng.randrange(4)])})
                 elif r < 0.85:
@@ -734,8 +734,17 @@ class AdnlWorld(HistoryWorld):
             return
         m = st.mn[op['i'] % len(st.mn)]
         words = m['words']
-        ok, kp = call(lk.mnemonic_to_private_key if op.get('via') == 'private' else lk.mnemonic_to_wallet_key, list(words))
+        # the caller keeps ONE list for the phrase it is working with and overwrites it in place from phrase to phrase
+        slots = getattr(st, 'slots', None)
+        if slots is None:
+            slots = st.slots = []
+        slots[:] = words
+        fn = lk.mnemonic_to_private_key if op.get('via') == 'private' else lk.mnemonic_to_wallet_key
+        ok, kp = call(fn, slots)
         ctx.evaluated(1)
+        if slots != list(words):
+            self.V(ctx, 'argument-changed', 'mnemonic_to_wallet_key', 'word-list', 'the key derivation changed the word list it was given')
+            return
         if not ok:
             self.V(ctx, 'derivation-fails', 'mnemonic_to_wallet_key', 'valid', 'mnemonic_to_wallet_key raised %r' % (kp,))
             return
@@ -760,6 +769,18 @@ class AdnlWorld(HistoryWorld):
         if not (ok and ok2 and r is True):
             self.V(ctx, 'keypair-inconsistent', 'sign_message', 'valid', 'a signature by the derived private key does not verify under the derived public key')
             return
+        corpus = _corpus()
+        if op.get('then') is not None and corpus:
+            other = [refmn.WORDS[i] for i in corpus[op['then'] % len(corpus)]]
+            slots[:] = other
+            ctx.probe('same-list-object-holds-another-phrase-now')
+            ok, kp2 = call(fn, slots)
+            ctx.evaluated(1)
+            want = ref_wallet_key(other) if op.get('via') != 'private' else None
+            if not ok or (want is not None and tuple(kp2) != tuple(want)) or (want is None and tuple(kp2) == (pub, priv)):
+                self.V(ctx, 'derivation-differs-from-reference', 'mnemonic_to_wallet_key', 'list-overwritten-in-place',
+                       'after the caller put another phrase into the same list object, the derivation %s' % ('raised %r' % (kp2,) if not ok else 'did not return the key of the phrase the list holds now'))
+                return
         if op.get('fresh'):
             env = dict(os.environ, PYTHONHASHSEED='1', PYTHONDONTWRITEBYTECODE='1')
             code = ('import sys; sys.path.insert(0, %r); from pytoniq_core.crypto.keys import mnemonic_to_wallet_key as f; '
